@@ -535,28 +535,67 @@ def _pack_gating (ctx, repo, lof):
   wildcard bit meaningful for an ethertype unless it clears it: a field kept by the wildcards must be written by pack"""
   m = lof.classes['ofp_match']; pk = m.methods.get('pack'); w = m.methods.get('_wire_wildcards')
   if pk is None or w is None: return
-  helpers = {}
-  for fn in [n for n in walk_no_nested(pk.node) if isinstance(n, ast.FunctionDef)]:
-    types = set(); calls = set()
-    for x in ast.walk(fn):
-      if isinstance(x, ast.Compare) and norm(x.left) == 'self.dl_type' and isinstance(x.ops[0], ast.Eq):
-        k = q.try_int(x.comparators[0])
-        if k is not None: types.add(k)
-      if isinstance(x, ast.Call) and isinstance(x.func, ast.Name): calls.add(x.func.id)
-    helpers[fn.name] = (types, calls)
-  def closure (name, seen=()):
-    if name not in helpers or name in seen: return set()
-    t, cs = helpers[name]
-    out = set(t)
-    for c in cs: out |= closure(c, seen + (name,))
-    return out
-  gate = {}
-  for call in calls_in(pk.node):
-    if call_name(call) == 'pack' and norm(call.func.value) == 'struct':
-      for a in call.args[1:]:
-        if isinstance(a, ast.Call) and isinstance(a.func, ast.Name) and a.func.id in helpers:
-          fld = layout.field_name(a)
-          gate[fld] = closure(a.func.id)
+  # which ethertypes let each protocol-dependent field through pack(): decided by evaluating the arguments of the struct.pack
+  # calls for a sample match (distinct non-zero field values) under each ethertype - closures, booleans computed up front and
+  # conditional expressions are all the same to this
+  SAMPLE = {'nw_tos': 0x11, 'nw_proto': 6, 'nw_src': 0x0a000001, 'nw_dst': 0x0a000002, 'tp_src': 80, 'tp_dst': 81}
+  nested = dict((fn.name, fn) for fn in walk_no_nested(pk.node) if isinstance(fn, ast.FunctionDef))
+  class ClosureHook(object):
+    wants_env = True
+    def __init__ (self): self.depth = 0
+    def __call__ (self, call, env):
+      fn = call.func
+      target = None
+      if isinstance(fn, ast.Name) and fn.id in nested: target = nested[fn.id]
+      elif isinstance(fn, ast.Attribute) and norm(fn.value) in ('self', m.name) and m.find_method(fn.attr) is not None and fn.attr.startswith('_pack'):
+        target = m.find_method(fn.attr).node
+      if target is None or call.keywords or self.depth > 4: return (False, None)
+      try: args = [q.eval_env2(repo, lof, a_, env, m) for a_ in call.args]
+      except Exception: return (False, None)
+      ps = [a_.arg for a_ in target.args.args]
+      if ps and ps[0] == 'self': ps = ps[1:]
+      if len(ps) != len(args): return (False, None)
+      inner = q.Env(dict(env.exact), list(env.matchers), self)
+      for k_, v_ in zip(ps, args): inner.exact[k_] = v_
+      gt = q.cfg_of(target); res = []
+      self.depth += 1
+      try:
+        for p_, e_ in q.paths_under(repo, lof, gt, inner, gt.entry, [n_ for n_ in gt.nodes if n_.kind == 'return'], m, limit=30):
+          try: res.append(q.eval_env2(repo, lof, p_[-1].ast.value, e_, m))
+          except Exception: res.append('?')
+      finally: self.depth -= 1
+      if res and '?' not in res and all(r_ == res[0] for r_ in res): return (True, res[0])
+      return (False, None)
+  pack_calls = []
+  gp = q.cfg_of(pk)
+  for n_ in gp.nodes:
+    for call in q.node_calls(n_):
+      if call_name(call) == 'pack' and norm(call.func.value) == 'struct': pack_calls.append((n_, call))
+  gate = dict((fld, set()) for fld in SAMPLE)
+  decided_types = set()
+  def written_under (t):
+    ex = {'self.dl_type': t, 'self.wildcards': 0, 'self.in_port': 1, 'self.dl_vlan': 5, 'self.dl_vlan_pcp': 1, 'self.dl_src': None, 'self.dl_dst': None}
+    for k_, v_ in SAMPLE.items(): ex['self.' + k_] = v_
+    ms = [((lambda e: isinstance(e, ast.Call) and call_name(e) == '_assert'), True), ((lambda e: isinstance(e, ast.Call) and call_name(e) == '_wire_wildcards'), 0),
+          ((lambda e: isinstance(e, ast.Call) and call_name(e) == 'toRaw'), b'\0' * 6)]
+    vals = set(); unknown = False
+    for n_, call in pack_calls:
+      for a_ in call.args[1:]:
+        vs = q.values_at(repo, lof, gp, q.Env(dict(ex), list(ms), ClosureHook()), n_, a_, m)
+        if '?' in vs: unknown = True
+        vals |= set(v_ for v_ in vs if isinstance(v_, int) and not isinstance(v_, bool))
+    return vals, unknown
+  types_probe = set()
+  for x in ast.walk(w.node):
+    if isinstance(x, ast.Compare) and 'dl_type' in norm(x.left) and isinstance(x.ops[0], (ast.Eq, ast.NotEq)):
+      k = q.try_int(x.comparators[0])
+      if k is None: k = repo.try_const(lof, x.comparators[0], m)
+      if isinstance(k, int): types_probe.add(k)
+  for t in sorted(types_probe | {0x1234}):
+    vals, unknown = written_under(t)
+    for fld, sv in SAMPLE.items():
+      if sv in vals: gate[fld].add(t)
+    if not unknown or all(sv in vals or True for sv in SAMPLE.values()): decided_types.add(t)
   FW = {'nw_tos': 'OFPFW_NW_TOS', 'nw_proto': 'OFPFW_NW_PROTO', 'nw_src': 'OFPFW_NW_SRC_MASK', 'nw_dst': 'OFPFW_NW_DST_MASK', 'tp_src': 'OFPFW_TP_SRC', 'tp_dst': 'OFPFW_TP_DST'}
   g = q.cfg_of(w)
   per_type = {}
